@@ -124,7 +124,7 @@ pub fn ref_encode(p: &Payload) -> Vec<u8> {
         Payload::Addr(fam, f) => addr_fill(*fam, f),
         Payload::TlvStruct(k, f) | Payload::TlvTuple(k, f) => tlv(*k, f.bytes()),
         Payload::TlvTyped(i, f) => tlv(TYPE_TABLE[*i as usize % 12].1, f.bytes()),
-        Payload::Section(f) => f.bytes(),
+        Payload::Section(f) | Payload::SectionAdvanced(_, f) => f.bytes(),
         Payload::Type(i) => vec![TYPE_TABLE[*i as usize % 12].1],
     }
 }
@@ -203,7 +203,7 @@ pub fn run_model(ctor: &Ctor, ops: &[BOp]) -> Model {
                 }
                 m.payload.extend(ref_encode(p));
             }
-            BOp::Batch(ps) => {
+            BOp::Batch(ps) | BOp::BatchLazy(ps, _) => {
                 m.writes += 1;
                 let mut failed = false;
                 for p in ps {
@@ -319,6 +319,14 @@ fn to_p<'a>(p: &Payload, data: &'a [u8]) -> P<'a> {
         Payload::TlvTuple(k, _) => P::Tuple((*k, data)),
         Payload::TlvTyped(i, _) => P::Typed((TYPE_TABLE[*i as usize % 12].0, data)),
         Payload::Section(_) => P::Section(TypeLengthValues::from(data)),
+        Payload::SectionAdvanced(k, _) => {
+            // the caller looked at some of the TLVs before forwarding the section
+            let mut it = TypeLengthValues::from(data);
+            for _ in 0..*k {
+                let _ = it.next();
+            }
+            P::Section(it)
+        }
         Payload::Type(i) => P::Type(TYPE_TABLE[*i as usize % 12].0),
     }
 }
@@ -329,7 +337,8 @@ fn payload_data(p: &Payload) -> Vec<u8> {
         | Payload::TlvStruct(_, f)
         | Payload::TlvTuple(_, f)
         | Payload::TlvTyped(_, f)
-        | Payload::Section(f) => f.bytes(),
+        | Payload::Section(f)
+        | Payload::SectionAdvanced(_, f) => f.bytes(),
         Payload::Addr(fam, f) => addr_fill(*fam, f),
         _ => Vec::new(),
     }
@@ -448,6 +457,36 @@ pub fn run_real(ctor: &Ctor, ops: &[BOp]) -> RealOutcome {
                     Err(_) => return RealOutcome::WriteFailed(i),
                 }
             }
+            BOp::BatchLazy(ps, style) => {
+                let datas: Vec<Vec<u8>> = ps.iter().map(payload_data).collect();
+                let v: Vec<P> = ps
+                    .iter()
+                    .zip(datas.iter())
+                    .map(|(p, d)| to_p(p, d))
+                    .collect();
+                let r = match style % 4 {
+                    0 => b.write_payloads(v.into_iter().filter(|_| true)),
+                    1 => {
+                        let mut it = v.into_iter();
+                        b.write_payloads(std::iter::from_fn(move || it.next()))
+                    }
+                    2 => {
+                        let mut first = v;
+                        let second = first.split_off(first.len() / 2);
+                        b.write_payloads(
+                            first
+                                .into_iter()
+                                .filter(|_| true)
+                                .chain(second.into_iter().filter(|_| true)),
+                        )
+                    }
+                    _ => b.write_payloads(v.into_iter().flat_map(|p| std::iter::once(p))),
+                };
+                match r {
+                    Ok(nb) => b = nb,
+                    Err(_) => return RealOutcome::WriteFailed(i),
+                }
+            }
             BOp::WriteTlv(k, f) => {
                 let data = f.bytes();
                 match b.write_tlv(*k, data.as_slice()) {
@@ -519,7 +558,12 @@ pub fn gen_payload(rng: &mut Rng, big: bool) -> Payload {
         16 => Payload::TlvTyped(rng.below(12) as u8, gen_fill(rng, big)),
         17 => {
             let b = big && rng.chance(1, 2);
-            Payload::Section(gen_fill(rng, b))
+            if rng.chance(1, 2) {
+                Payload::Section(gen_fill(rng, b))
+            } else {
+                // a well-formed little section some of whose TLVs were already looked at
+                Payload::SectionAdvanced(rng.range(0, 3) as u8, gen_fill(rng, false))
+            }
         }
         _ => Payload::Type(rng.below(12) as u8),
     }
@@ -602,7 +646,11 @@ pub fn gen_history(rng: &mut Rng, sc: &mut Scenario) {
                         ps.push(gen_payload(rng, big && ps.is_empty()));
                     }
                 }
-                BOp::Batch(ps)
+                if rng.chance(1, 3) {
+                    BOp::BatchLazy(ps, rng.below(4) as u8)
+                } else {
+                    BOp::Batch(ps)
+                }
             }
             _ => BOp::WriteTlv(rng.byte(), gen_fill(rng, big)),
         };
@@ -651,7 +699,7 @@ pub fn plan(ops: &[BOp]) -> Vec<Payload> {
     for op in ops {
         match op {
             BOp::Write(p) => out.push(p.clone()),
-            BOp::Batch(ps) => out.extend(ps.iter().cloned()),
+            BOp::Batch(ps) | BOp::BatchLazy(ps, _) => out.extend(ps.iter().cloned()),
             BOp::WriteTlv(k, f) => out.push(Payload::TlvStruct(*k, f.clone())),
             _ => {}
         }
@@ -675,7 +723,11 @@ pub fn reshape(ops: &[BOp], shape: u8, rng: &mut Rng) -> Vec<BOp> {
                 if k == 1 && rng.chance(1, 2) {
                     out.push(BOp::Write(p[i].clone()));
                 } else {
-                    out.push(BOp::Batch(p[i..i + k].to_vec()));
+                    if rng.chance(1, 3) {
+                        out.push(BOp::BatchLazy(p[i..i + k].to_vec(), rng.below(4) as u8));
+                    } else {
+                        out.push(BOp::Batch(p[i..i + k].to_vec()));
+                    }
                 }
                 i += k;
             }
